@@ -64,6 +64,16 @@ def cases(draw, tier):
     keys = draw(st.lists(st.sampled_from(KEY_WORDS), min_size=12, max_size=12, unique=True))
     case = {"kind": kind, "ir": ir, "bits": bits, "keys": keys, "cfg": {"literal_enums": draw(st.booleans())}}
     if kind == "schemas":
+        if draw(st.booleans()):
+            # forward references: every allOf child is declared before its parent
+            order = [n for n, _ in ir["schemas"]]
+            cm = docs.comp_map(ir)
+            for n in list(order):
+                for m in cm[n].get("allOf") or []:
+                    if m.get("k") == "ref" and m["name"] in order and order.index(m["name"]) < order.index(n):
+                        order.remove(n)
+                        order.insert(order.index(m["name"]), n)
+            ir["schemas"] = [[n, cm[n]] for n in order]
         comps = docs.comp_map(ir)
         insts = []
         for name, s in ir["schemas"]:
@@ -161,7 +171,8 @@ def _inline(s, comps, bt, recursive, depth=0):
     # an allOf member written by reference versus the same (flat) parent written out as an inline member
     for m in s.get("allOf", []):
         if m.get("k") == "ref" and m["name"] in comps and m["name"] not in recursive and not comps[m["name"]].get("allOf") \
-                and comps[m["name"]].get("k") == "object" and bt.take():
+                and comps[m["name"]].get("k") == "object":
+            bt.used += 1
             cp = copy.deepcopy(comps[m["name"]])
             for p in cp.get("props", []):
                 _inline(p[1], comps, bt, recursive, depth + 1)
